@@ -86,7 +86,8 @@ func built(x *mon.Ctx, tiersOnly bool) {
 	tierFamilies := map[string]bool{"sm9-authenticated-c2-size/raw": true, "sm9-authenticated-c2-size/asn1": true, "sm2-enveloped-key-sizes": true,
 		"pkcs8-pbes2-block-cipher-sizes": true, "pkcs8-pbes2-gcm-parameter-sizes": true, "pkcs7-encrypted-data-sizes": true,
 		"cfca-sm4cbc-lengths": true, "cfca-sm2-blob-key-sizes": true}
-	for _, fam := range families(w) {
+	setTextBreadth(x.Thorough())
+	for _, fam := range append(append(families(w), algebraFamilies(w, x)...), nameFamilies(w)...) {
 		if tiersOnly && !tierFamilies[fam.name] {
 			continue
 		}
@@ -111,6 +112,7 @@ func built(x *mon.Ctx, tiersOnly bool) {
 			c.End()
 		}
 	}
+	profileNote(x)
 }
 
 // payloadSizes: every length 0..small, then every whole number of blocks up to 9 (an IV plus 1..8 blocks of
